@@ -130,6 +130,22 @@ def gen_program(prng):
     if prng.random() < 0.3:
         P['vars']['g0'] = 'vars.g0'
     P['rseed'] = prng.randint(0, 10 ** 6)
+    # Inbound transitions that do not fire: task i names task j under a
+    # clause that i's outcome does not take, so i is an inbound task of j in
+    # the definition but not on any causal path to it (unless it is an
+    # ancestor some other way).  j becomes a partial join that needs exactly
+    # its firing parents, so the run stays deterministic.
+    P['dead'] = {}
+    if n >= 4 and prng.random() < 0.4:
+        for _ in range(prng.choice([1, 1, 2])):
+            j = prng.randrange(1, n)
+            cand = [i for i in range(j) if i not in parents[j]]
+            if not cand:
+                continue
+            i = prng.choice(cand)
+            P['dead'].setdefault(str(i), [])
+            if j not in P['dead'][str(i)]:
+                P['dead'][str(i)].append(j)
     return P
 
 
@@ -154,7 +170,10 @@ def to_yaml(P):
         if t['mut']:
             inp['p'] = {v: MUT % {'v': v} for v in BRANCH + GLOBAL}
         d = {'action': 'verif.act', 'input': inp}
-        if len(P['parents'][str(i)]) > 1:
+        dead_in = [k for k, js in (P.get('dead') or {}).items() if i in js]
+        if dead_in:
+            d['join'] = len(P['parents'][str(i)])
+        elif len(P['parents'][str(i)]) > 1:
             d['join'] = 'all'
         ok = P['out'][str(i)] == 'ok'
         pubs = t['pubs']
@@ -185,6 +204,9 @@ def to_yaml(P):
                     d[cl]['next'] = nxt
             else:
                 d[cl] = nxt
+        dead = (P.get('dead') or {}).get(str(i))
+        if dead:
+            d['on-error' if ok else 'on-success'] = ['t%d' % j for j in dead]
         tasks['t%d' % i] = d
     wf = {'type': 'direct',
           'output': {v: "<%% $.get('%s') %%>" % v for v in BRANCH + GLOBAL},
@@ -403,8 +425,23 @@ def classify(got, allowed, all_values):
             pool |= _leaves(a)
         if _leaves(got) <= pool | {('', '{}')}:
             # dictionary meets dictionary at a join: the engine combines
-            # them key by key, so keys of the older one survive
-            return 'keys-of-older-dict-survive-join'
+            # them key by key, so keys of the older one that the newer one
+            # does not have survive.  Only that is the recorded finding:
+            # every key the latest publisher did publish must carry the
+            # latest publisher's value (an empty dictionary has no keys).
+            # (Several causally maximal publishers: any of their values
+            # per key, as in acceptable().)
+            ad = [a for a in allowed if isinstance(a, dict)]
+            if any(not a for a in ad):
+                return 'keys-of-older-dict-survive-join'
+            want = {}
+            for a in ad:
+                for path, val in _leaves(a):
+                    want.setdefault(path, set()).add(val)
+            have = dict(_leaves(got))
+            if all(have.get(path) in vals for path, vals in want.items()):
+                return 'keys-of-older-dict-survive-join'
+            return 'stale-nested-value'
     if got in all_values:
         return 'stale-value'
     return 'unknown-value'
